@@ -421,10 +421,6 @@ def gen_buffer(g, spec, H, idx):
         k = g.pick(["TaskUnloadBuffer", "TaskLoadBuffer"])
         if (t, k) in seen:
             continue
-        other = "TaskLoadBuffer" if k == "TaskUnloadBuffer" else "TaskUnloadBuffer"
-        topt = next(x for x in spec["tasks"] if x["name"] == t)["optional"]
-        if (t, other) in seen and topt and not b["concurrent"] and not g.chance(12):
-            continue  # open finding KF-NCBUF: mostly kept out by construction so that it does not shadow the search
         seen.add((t, k))
         out.append({"type": k, "name": g.name("c"), "task": t, "buffer": b["name"], "qty": g.int(1, 3)})
     return b, out
